@@ -1,0 +1,52 @@
+// Copyright 2023, Pulumi Corporation.
+
+//go:build verif
+
+// Verification hook for property C16 (temporary secret files of `esc run`).  Compiled only with `-tags verif`.
+// It re-exports the unexported collaborator interfaces of the CLI and lets an out-of-package harness put its own
+// (in-memory, fault-injecting) file system, process runner, environment and API client into Options /
+// PrepareOptions.  Nothing here changes behaviour; without the tag the file is not part of the build.
+
+package cli
+
+import (
+	"github.com/pulumi/esc/cmd/esc/cli/client"
+)
+
+// VerifC16FS is the file system the CLI writes temporary files to (escFS).
+type VerifC16FS = escFS
+
+// VerifC16Exec is the process runner of `esc run` (cmdExec).
+type VerifC16Exec = cmdExec
+
+// VerifC16Environ is the process environment seen by the CLI (environ).
+type VerifC16Environ = environ
+
+// VerifC16Options returns a copy of o whose unexported collaborators are the given ones (nil keeps the default).
+func VerifC16Options(
+	o Options,
+	fs VerifC16FS,
+	ex VerifC16Exec,
+	env VerifC16Environ,
+	newClient func(userAgent, backendURL, accessToken string, insecure bool) client.Client,
+) *Options {
+	if fs != nil {
+		o.fs = fs
+	}
+	if ex != nil {
+		o.exec = ex
+	}
+	if env != nil {
+		o.environ = env
+	}
+	if newClient != nil {
+		o.newClient = newClient
+	}
+	return &o
+}
+
+// VerifC16PrepareOptions returns a copy of o that uses the given file system.
+func VerifC16PrepareOptions(o PrepareOptions, fs VerifC16FS) *PrepareOptions {
+	o.fs = fs
+	return &o
+}
